@@ -1869,6 +1869,55 @@ def _copy_takes_param_name(node: ast.FunctionDef) -> bool:
     return False
 
 
+def _bool_pair_buckets(node: ast.FunctionDef) -> bool:
+    """`a, b = pair = [], []` (or `pair = a, b = [], []`) with `pair` used only as `pair[<test>].append(x)`: index False is `a`, index
+    True is `b` — the append reads as `if <test>: b.append(x) else: a.append(x)`"""
+    for block in _blocks(node):
+        for i, st in enumerate(block):
+            if not (isinstance(st, ast.Assign) and len(st.targets) == 2 and isinstance(st.value, (ast.Tuple, ast.List)) and len(st.value.elts) == 2 and
+                    all(isinstance(x, ast.List) and not x.elts for x in st.value.elts)):
+                continue
+            tup = next((t for t in st.targets if isinstance(t, (ast.Tuple, ast.List)) and len(t.elts) == 2 and all(isinstance(x, ast.Name) for x in t.elts)), None)
+            nm = next((t for t in st.targets if isinstance(t, ast.Name)), None)
+            if tup is None or nm is None:
+                continue
+            p = nm.id
+            a, b = tup.elts[0].id, tup.elts[1].id
+            parents = {}
+            for n in ast.walk(node):
+                for ch in ast.iter_child_nodes(n):
+                    parents[id(ch)] = n
+            uses = [n for n in ast.walk(node) if isinstance(n, ast.Name) and n.id == p and isinstance(n.ctx, ast.Load)]
+            fills = []
+            ok = bool(uses)
+            for u in uses:
+                sub = parents.get(id(u))
+                att = parents.get(id(sub))
+                call = parents.get(id(att))
+                ex = parents.get(id(call))
+                if isinstance(sub, ast.Subscript) and sub.value is u and isinstance(sub.slice, (ast.Compare, ast.BoolOp, ast.UnaryOp)) and \
+                        isinstance(att, ast.Attribute) and att.attr == "append" and isinstance(call, ast.Call) and call.func is att and \
+                        len(call.args) == 1 and isinstance(ex, ast.Expr):
+                    fills.append((ex, sub, call))
+                else:
+                    ok = False
+            if not ok:
+                continue
+            for ex, sub, call in fills:
+                def app(name_):
+                    return ast.Expr(value=ast.Call(func=ast.Attribute(value=ast.Name(id=name_, ctx=ast.Load()), attr="append", ctx=ast.Load()),
+                                                   args=[copy.deepcopy(call.args[0])], keywords=[]))
+                new = ast.copy_location(ast.If(test=sub.slice, body=[app(b)], orelse=[app(a)]), ex)
+                for b2 in _blocks(node):
+                    for k_, x in enumerate(b2):
+                        if x is ex:
+                            b2[k_] = new
+            block[i] = ast.copy_location(ast.Assign(targets=[tup], value=st.value), st)
+            ast.fix_missing_locations(node)
+            return True
+    return False
+
+
 def _cond_iterables(node: ast.FunctionDef) -> bool:
     """`for v in (A if c else ())` — directly or through a local bound once and used only there — is `if c: for v in A`: a loop over
     nothing is no loop"""
@@ -2230,6 +2279,9 @@ def normalise(M, fn, subst: bool = False, guards: bool = False, keep=(), comps: 
     _copy_takes_param_name(node)
     for _ in range(3):
         if not _bool_buckets(node):
+            break
+    for _ in range(3):
+        if not _bool_pair_buckets(node):
             break
     for _ in range(3):
         if not _fuse_tuple_buffers(node):
